@@ -29,17 +29,25 @@ def handle (tb : Tables) (c impl : T) : String :=
     --   fragcond "missing fragment condition" (the token where `on` is expected) (D70)
     --   vardef   a variable coercion error, located at the variable's name       (D71)
     --   argname  an undeclared or repeated argument, located at the argument's name (D82)
+    --   opname   a repeated operation name, located at the name                     (D88)
     (match src.asChars, off.asNat, len.asNat with
      | some src, some off, some len =>
        let (flag, asCoded) : String × Bool := match kind with
          | "opword" => ("D64", tb.opErrPosAfterLookahead)
          | "fragcond" => ("D70", tb.fragCondPosAfterToken)
          | "argname" => ("D82", tb.argPosAfterToken)
+         | "opname" => ("D88", tb.opLineBeforeSkip)
          | _ => ("D71", tb.varDefPosAfterToken)
        -- at end of input there is no look-ahead byte to consume: the as-coded form then samples after the token only
        let atEof := decide (src.length ≤ off + len)
        let locOf (c : Bool) : Int × Int :=
-         if c then
+         if kind == "opname" then
+           -- (for this kind `len` carries the offset where the `query` keyword ends; the name is one character)
+           -- as coded: the column of the name, on the line the scanner stood on after the keyword and the one byte
+           -- `readToken` looked ahead
+           let fl := fieldLoc { sampleAfterLookahead := false } src off 1
+           if c then ((after (src.take (len + 1))).line, fl.2) else fl
+         else if c then
            let p := after (src.take (if atEof then off + len else off + len + 1))
            (p.line, (p.col : Int) - (if kind == "fragcond" then 2 else if kind == "argname" then len + 1 else len))
          else
@@ -52,6 +60,8 @@ def handle (tb : Tables) (c impl : T) : String :=
        let specOk : Bool := match impl with
          | .node "loc" [l, c] => (match l.asInt, c.asInt with | some l, some c => locOk src off (l, c) | _, _ => false)
          | _ => false
+       -- a deviation form that happens to give the right location (keyword and name on one line) is not a deviation
+       if cur == alt then (if impl == cur then "ok" else "mismatch " ++ (if specOk then "spec-ok " else "spec-bad ") ++ cur.render) else
        verdict impl cur [{ flag := flag, onInCur := asCoded, obs := alt }] specOk
      | _, _, _ => "bad-op")
   | .node "c07env" [] =>
@@ -64,6 +74,7 @@ def handle (tb : Tables) (c impl : T) : String :=
           else if tb.opErrPosAfterLookahead then "dev D64"
           else if tb.fragCondPosAfterToken then "dev D70" else if tb.varDefPosAfterToken then "dev D71"
           else if tb.argPosAfterToken then "dev D82"
+          else if tb.opLineBeforeSkip then "dev D88"
           else "mismatch spec-bad (env …)")
        else "mismatch spec-bad (env true true true true true true true)"
      | _ => "bad-op")
@@ -79,7 +90,7 @@ def handle (tb : Tables) (c impl : T) : String :=
   | _ => "bad-op"
 
 def flags (tb : Tables) : List (String × Bool) :=
-  [("D21", (cfgCurOf tb).sampleAfterLookahead), ("D64", tb.opErrPosAfterLookahead), ("D70", tb.fragCondPosAfterToken), ("D82", tb.argPosAfterToken),
+  [("D21", (cfgCurOf tb).sampleAfterLookahead), ("D64", tb.opErrPosAfterLookahead), ("D70", tb.fragCondPosAfterToken), ("D82", tb.argPosAfterToken), ("D88", tb.opLineBeforeSkip),
    ("D71", tb.varDefPosAfterToken)]
 
 end Ggql.Driver.C07
